@@ -11,6 +11,7 @@
    result is the dict {stored level index: record}; `lookup k cell` is cell[level k]. *)
 From Coq Require Import ZArith List Bool.
 From CTM Require Import Base.Sx Base.SortX Model.Tree Model.Election Model.RunMapping Proofs.ElectionP Proofs.RunMappingP.
+From CTM Require Import Proofs.TreeValidateP Proofs.TreeDropP.
 From CTM Require Model.Markers.
 Import ListNotations.
 Open Scope Z_scope.
@@ -151,6 +152,24 @@ Theorem c17_total :
 Proof. exact run_total. Qed.
 Print Assumptions c17_total.
 
+(* The tree handed to the marker reconciliation and the election after drop_level is, as a
+   tree that is QUERIED, the taxonomy that never had the level: parents(level j, x) on the
+   reduced tree are the ancestors of x in the stored tree without the entry of the removed
+   level li (squash: that entry deleted, the finer levels renumbered down by one; up_level: the
+   stored position of reduced level j) - in particular every ancestor it names is a node of
+   the reduced tree, never a node of the removed level.  (The harness compares exactly these
+   answers of the real reduced TaxonomyTree, for every node, with `ancestors` on `reduce t cfg`:
+   tag 1706.) *)
+Theorem c17_reduced_tree_parents :
+  forall (t : tree) (li : nat) (t' : tree) (m : list nat),
+    validate t = true -> wf t -> (li < length t)%nat ->
+    reduce t {| cfg_drop := Some li; cfg_flatten := false |} = TOk (t', m) ->
+    drop_level t li = TOk t' /\ m = remove_nth li (seq 0 (length t)) /\
+    (forall j x, ancestors t' j x = squash li (ancestors t (up_level li j) x)) /\
+    (forall j x p, In p (map snd (ancestors t' j x)) -> exists k, In p (nodes (nth k t' []))).
+Proof. exact reduce_drop_ancestors. Qed.
+Print Assumptions c17_reduced_tree_parents.
+
 (* ---------------- non-vacuity: a 4-level taxonomy with a single top node, a single-child
    chain (10 -> 100) and a single-child parent (110 -> 1100) ---------------- *)
 Definition ex_tree : tree :=
@@ -238,3 +257,13 @@ Example c17_example_reduce :
   option_map snd (match reduce ex_tree {| cfg_drop := Some 1%nat; cfg_flatten := true |} with TOk r => Some r | TErr _ => None end)
     = Some [3]%nat.
 Proof. vm_compute. repeat split; reflexivity. Qed.
+
+(* the reduced tree as a tree: with the middle level 1 removed, the parent of 111 (old level 2,
+   new level 1) is the top node 1, not the removed node 11; wf holds of the example *)
+Example c17_example_reduced_parents :
+  wf ex_tree /\
+  match reduce ex_tree {| cfg_drop := Some 1%nat; cfg_flatten := false |} with
+  | TOk (t', _) => ancestors t' 2 1111 = [(1%nat, 111); (0%nat, 1)] /\ ancestors ex_tree 3 1111 = [(2%nat, 111); (1%nat, 11); (0%nat, 1)]
+  | TErr _ => False
+  end.
+Proof. split; [apply tree_ok_wf; apply tree_ok_b; vm_compute; reflexivity | vm_compute; split; reflexivity]. Qed.
